@@ -442,6 +442,11 @@ func (f *STFS) OpenFile(name string, flag int, perm os.FileMode) (afero.File, er
 		return nil, os.ErrInvalid
 	}
 
+	if f.readOnly && flag&(os.O_WRONLY|os.O_RDWR|os.O_APPEND|os.O_CREATE|os.O_TRUNC) != 0 {
+		// As with `afero.ReadOnlyFs`, a read-only filesystem only opens files for reading; layers above it (i.e. the caching filesystem) apply writes to themselves first if the file can be opened
+		return nil, os.ErrPermission
+	}
+
 	name = cleanName(name)
 
 	f.ioLock.Lock()
